@@ -119,6 +119,7 @@ static void sanitizer_where(long from, char *where, size_t cap, char *kind, size
         char *p;
         if ((p = strstr(line, "ERROR: AddressSanitizer: ")) && !kind[0]) { sscanf(p + 25, "%63s", kind); }
         if ((p = strstr(line, "runtime error: ")) && !kind[0]) { snprintf(kind, kcap, "ubsan"); }
+        if ((p = strstr(line, "WARNING: ThreadSanitizer: ")) && !kind[0]) { snprintf(kind, kcap, "tsan-%.40s", p + 26); for (char *q = kind; *q; q++) if (*q == ' ' || *q == '\n' || *q == '(') { *q = (*q == ' ') ? '-' : 0; if (!*q) break; } }
         if ((p = strstr(line, " in ")) && strstr(line, "    #") && stacks < 1) {
             char fn[128]; if (sscanf(p + 4, "%127s", fn) == 1 && frames < 8) {
                 if (strncmp(fn, "__", 2) && strcmp(fn, "main")) { off += snprintf(where + off, cap - off, "%s%s", off ? "<" : "", fn); frames++; }
